@@ -472,6 +472,31 @@ func coqUnits(us []Unit) string {
 	return vh.CoqList(xs)
 }
 
+// coqRawOcc: (min, max) of every declaration in preorder as written into the generated schema
+// (None = left out because equal to the format's default and omit_defaults is set)
+func coqRawOcc(driver string, ds []*Decl, omit bool) string {
+	defMin, defMax := 0, -1
+	if driver == "edi" {
+		defMin, defMax = 1, 1
+	}
+	var xs []string
+	walk(ds, func(d *Decl) {
+		mx := d.Max
+		if mx < 0 {
+			mx = -1
+		}
+		mn, mxs := fmt.Sprintf("(Some (%d)%%Z)", d.Min), fmt.Sprintf("(Some (%d)%%Z)", mx)
+		if omit && d.Min == defMin {
+			mn = "None"
+		}
+		if omit && mx == defMax {
+			mxs = "None"
+		}
+		xs = append(xs, "("+mn+", "+mxs+")")
+	})
+	return vh.CoqList(xs)
+}
+
 // coqRej: the ids of the units the filter rejects (empty without a filter)
 func coqRej(c *Case) string {
 	var xs []string
